@@ -177,6 +177,7 @@ def prove(prop, extra_modules=(), leanchecker=False):
     res = {"prop": prop, "obligations": 0, "discharged": 0, "theorems": [], "failed": [],
            "build_ok": False, "translator_ok": True, "messages": []}
     with Lock():
+        gen_lakefile()
         ok, msg = regen()
         if not ok:
             res["translator_ok"] = False
@@ -229,12 +230,29 @@ def prove(prop, extra_modules=(), leanchecker=False):
     return res
 
 
-def build_driver():
+def gen_lakefile():
+    """lakefile.toml is generated: one core-only lean_exe per Driver/<Area>.lean (each has its own `main`),
+    so that one area's breakage never takes another area's driver down."""
+    areas = sorted(os.path.splitext(os.path.basename(f))[0] for f in glob.glob(os.path.join(LEAN, "Driver", "*.lean")))
+    areas = [a for a in areas if a != "Util"]
+    txt = 'name = "f3"\nversion = "0.1.0"\ndefaultTargets = ["F3"]\n\n[[lean_lib]]\nname = "F3"\n\n[[lean_lib]]\nname = "Driver"\n'
+    for a in areas:
+        txt += '\n[[lean_exe]]\nname = "f3d_%s"\nroot = "Driver.%s"\n' % (a.lower(), a)
+    path = os.path.join(LEAN, "lakefile.toml")
+    if not os.path.exists(path) or open(path).read() != txt:
+        with open(path, "w") as fh:
+            fh.write(txt)
+    return areas
+
+
+def build_driver(area):
+    """Builds the compiled driver of one area: lean/Driver/<Area>.lean -> exe f3d_<area>."""
     with Lock():
-        rc, out = lake_build(["f3driver"])
+        gen_lakefile()
+        rc, out = lake_build(["f3d_" + area.lower()])
         if rc != 0:
-            raise SystemExit("cannot build f3driver:\n" + out[-3000:])
-    return os.path.join(LEAN, ".lake", "build", "bin", "f3driver")
+            return None, out
+    return os.path.join(LEAN, ".lake", "build", "bin", "f3d_" + area.lower()), ""
 
 
 def build_harness(name, race=False):
@@ -330,7 +348,12 @@ class Ctx:
             log("[%s] harness %s does not build:\n%s" % (self.prop, harness, out[-1500:]))
             return st
         st["build_ok"] = True
-        driver = build_driver()
+        driver, dout = build_driver(area)
+        if driver is None:
+            st["build_ok"] = False
+            st["build_output"] = dout[-3000:]
+            log("[%s] driver for area %s does not build:\n%s" % (self.prop, area, dout[-1500:]))
+            return st
         e = goenv()
         e["VERIF_SEED"] = str(self.seed if seed is None else seed)
         e["VERIF_TIER"] = tier or self.tier
@@ -352,7 +375,7 @@ class Ctx:
         st["ran"] = True
         t0 = time.time()
         with open(logp) as fh:
-            rc, dout = sh([driver, area] + list(driver_args), stdin=fh, timeout=timeout)
+            rc, dout = sh([driver] + list(driver_args), stdin=fh, timeout=timeout)
         st["driver_rc"] = rc
         st["driver_s"] = round(time.time() - t0, 2)
         st.update(parse_driver(dout))
